@@ -90,9 +90,8 @@ Theorem C11_exported_proof_verifies :
                                   (lg_excess e) = Ok p
         /\ pf_amount p = cx_amount c /\ pf_excess p = kn_excess k
         /\ (forall a, cx_pp_recipient c = Some a -> pf_raddr p = a)
-        /\ (w_parent w = cx_parent c -> pf_saddr p = pub (addr_sk (cx_parent c) i))
-        /\ (w_parent w = cx_parent c ->
-            verify_payment_proof sk pk esig pk_eqb pub verify addr_sk p (Some true) vparent = Ok v).
+        /\ pf_saddr p = pub (addr_sk (cx_parent c) i)
+        /\ verify_payment_proof sk pk esig pk_eqb pub verify addr_sk p (Some true) vparent = Ok v.
 Proof. exact exported_proof_verifies. Qed.
 Print Assumptions C11_exported_proof_verifies.
 
